@@ -62,6 +62,38 @@ Theorem C17_no_ack_fault_before_limit : forall FS now (s : rstate FS), r_phase s
   snd (c_limit_reached now (t_ack (r_timer s))) = false -> r_out (ht_phase now s) = r_out s.
 Proof. exact r_no_ack_fault_before_limit. Qed.
 
+(* the retransmission schedule: an expiration of the ACK timer that is not the limit declares
+   nothing and marks the pending EOF (sender) / Finished (receiver) PDU for retransmission; the
+   send arm then emits exactly that one PDU and clears the mark (a second send emits nothing);
+   without an expiration nothing is marked. With C17_count (one expiration counted per elapsed
+   period) this is "exactly one retransmission per earlier expiration". *)
+Theorem C17_sender_expiry_marks_eof : forall cksum now (s : sstate),
+  let ca := c_update now (t_ack (s_timer s)) in
+  c_occurred ca = true -> c_count ca <> c_max ca ->
+  ht_ack_eof cksum now s = set_eof_flag true (supd_ack (fun _ => ca) s).
+Proof. exact s_ack_expiry_marks_eof. Qed.
+Theorem C17_sender_no_expiry_quiet : forall cksum now (s : sstate),
+  c_occurred (c_update now (t_ack (s_timer s))) = false ->
+  ht_ack_eof cksum now s = supd_ack (fun _ => c_update now (t_ack (s_timer s))) s.
+Proof. exact s_no_ack_expiry_quiet. Qed.
+Theorem C17_sender_one_eof_per_mark : forall resp_len req_len now (s : sstate) e,
+  s_eof s = Some (e, true) ->
+  let s' := send_eof resp_len req_len now s in
+  (exists p, s_out s' = OPdu p :: s_out s /\ o_payload p = PEof e) /\ s_eof s' = Some (e, false) /\
+  t_ack (s_timer s') = c_restart now (t_ack (s_timer s)) /\ send_eof resp_len req_len now s' = s'.
+Proof. exact s_send_eof_once. Qed.
+Theorem C17_receiver_expiry_marks_finished : forall FS now (s : rstate FS),
+  r_phase s <> RecvData ->
+  let c := c_update now (t_ack (r_timer s)) in
+  c_count c <> c_max c -> c_occurred c = true ->
+  ht_ackphase now s = upd_ack (c_restart now) (set_fin_flag true (upd_ack (fun _ => c) s)).
+Proof. exact r_ack_expiry_marks_finished. Qed.
+Theorem C17_receiver_one_finished_per_mark : forall FS resp_len req_len now (s : rstate FS) f,
+  r_fin s = Some (f, true) ->
+  let s' := send_finished resp_len req_len now s in
+  (exists p, r_out s' = OPdu p :: r_out s /\ o_payload p = PFinished f) /\ r_fin s' = Some (f, false).
+Proof. exact r_send_finished_once. Qed.
+
 (* non-vacuity: 3 s timeout, limit 2, armed at t = 1 s: the limit is reached at exactly 7 s *)
 Example C17_nonvacuous :
   let c := c_reset 1000 (c_new 0 3000 2) in
@@ -77,3 +109,8 @@ Print Assumptions C17_receiver_dispatch.
 Print Assumptions C17_sender_dispatch.
 Print Assumptions C17_no_inactivity_fault_before_limit.
 Print Assumptions C17_no_ack_fault_before_limit.
+Print Assumptions C17_sender_expiry_marks_eof.
+Print Assumptions C17_sender_no_expiry_quiet.
+Print Assumptions C17_sender_one_eof_per_mark.
+Print Assumptions C17_receiver_expiry_marks_finished.
+Print Assumptions C17_receiver_one_finished_per_mark.
